@@ -1,4 +1,4 @@
-//! Typed read family (C05): derva / derva_copy / derva_into / derva_slice / derva_slice_s / derva_c_str
+//! Typed read family (C05): derva / derva_copy / derva_into / derva_slice / derva_slice_s / derva_slice_f / derva_c_str
 //! and the deref twins through `Ptr`.
 use crate::ops_img::tref;
 use crate::util::*;
@@ -29,6 +29,14 @@ macro_rules! by_struct {
 
 fn er(e: pelite::Error) -> String { format!("err {}", errname(e)) }
 
+/// the callable of `derva_slice_f` / `deref_slice_f`: `ge:<x>` = the stateless `|e| *e >= x`;
+/// `count:<n>` = a STATEFUL `FnMut` that counts its calls and answers true on the n-th one, whatever
+/// the element (never for n = 0).  Returns (is_count, operand).
+fn parse_pred(p: &str) -> Option<(bool, u64)> {
+	let (k, v) = p.split_once(':')?;
+	match k { "ge" => Some((false, num(v))), "count" => Some((true, num(v))), _ => None }
+}
+
 pub fn dispatch(st: &mut State, fam: &str, rest: &str) -> Option<String> {
 	if !(fam.starts_with("derva") || fam.starts_with("deref")) { return None; }
 	let a: Vec<&str> = rest.split(' ').collect();
@@ -44,6 +52,11 @@ pub fn dispatch(st: &mut State, fam: &str, rest: &str) -> Option<String> {
 			("_slice", 4) => { let len = num(a[3]) as usize;
 				if is_va { with_specific!(st, k, g, p => by_struct!(t, T => match p.deref_slice::<T>((x as VaT).into(), len) { Ok(r) => format!("ok {}", tref(g, r.as_ptr(), r.len() * std::mem::size_of::<T>())), Err(e) => er(e) })) }
 				else { with_any!(st, k, g, p => by_struct!(t, T => match p.derva_slice::<T>(x as u32, len) { Ok(r) => format!("ok {}", tref(g, r.as_ptr(), r.len() * std::mem::size_of::<T>())), Err(e) => er(e) })) } },
+			// derva_slice_f / deref_slice_f <k> <t> <x> count:<n> on the struct element types (the value is not looked at)
+			("_slice_f", 4) => { let (is_count, pv) = match parse_pred(a[3]) { Some(p) => p, None => return Some("bad-op".to_string()) };
+				if !is_count { return Some("bad-op".to_string()); }
+				if is_va { with_specific!(st, k, g, p => by_struct!(t, T => { let mut calls = 0u64; match p.deref_slice_f::<T, _>((x as VaT).into(), |_e: &T| { calls += 1; calls == pv }) { Ok(r) => format!("ok {}", tref(g, r.as_ptr(), r.len() * std::mem::size_of::<T>())), Err(e) => er(e) } })) }
+				else { with_any!(st, k, g, p => by_struct!(t, T => { let mut calls = 0u64; match p.derva_slice_f::<T, _>(x as u32, |_e: &T| { calls += 1; calls == pv }) { Ok(r) => format!("ok {}", tref(g, r.as_ptr(), r.len() * std::mem::size_of::<T>())), Err(e) => er(e) } })) } },
 			_ => "bad-op".to_string(),
 		});
 	}
@@ -65,6 +78,11 @@ pub fn dispatch(st: &mut State, fam: &str, rest: &str) -> Option<String> {
 		("_slice_s", 4) => { let (t, x, s) = (a[1], num(a[2]), num(a[3]));
 			if is_va { with_specific!(st, k, g, p => by_type!(t, T => match p.deref_slice_s::<T>((x as VaT).into(), s as T) { Ok(r) => format!("ok {}", tref(g, r.as_ptr(), r.len() * std::mem::size_of::<T>())), Err(e) => er(e) })) }
 			else { with_any!(st, k, g, p => by_type!(t, T => match p.derva_slice_s::<T>(x as u32, s as T) { Ok(r) => format!("ok {}", tref(g, r.as_ptr(), r.len() * std::mem::size_of::<T>())), Err(e) => er(e) })) } },
+		// derva_slice_f / deref_slice_f <k> <t> <x> <pred>: pred = ge:<x> | count:<n> (see `parse_pred`)
+		("_slice_f", 4) => { let (t, x) = (a[1], num(a[2]));
+			let (is_count, pv) = match parse_pred(a[3]) { Some(p) => p, None => return Some("bad-op".to_string()) };
+			if is_va { with_specific!(st, k, g, p => by_type!(t, T => { let mut calls = 0u64; match p.deref_slice_f::<T, _>((x as VaT).into(), |e: &T| { calls += 1; if is_count { calls == pv } else { (*e as u64) >= pv } }) { Ok(r) => format!("ok {}", tref(g, r.as_ptr(), r.len() * std::mem::size_of::<T>())), Err(e) => er(e) } })) }
+			else { with_any!(st, k, g, p => by_type!(t, T => { let mut calls = 0u64; match p.derva_slice_f::<T, _>(x as u32, |e: &T| { calls += 1; if is_count { calls == pv } else { (*e as u64) >= pv } }) { Ok(r) => format!("ok {}", tref(g, r.as_ptr(), r.len() * std::mem::size_of::<T>())), Err(e) => er(e) } })) } },
 		("_cstr", 2) => { let x = num(a[1]);
 			if is_va { with_specific!(st, k, g, p => match p.deref_c_str((x as VaT).into()) { Ok(c) => { let b = c.c_str(); format!("ok {}", g.rf(b.as_ptr(), b.len())) }, Err(e) => er(e) }) }
 			else { with_any!(st, k, g, p => match p.derva_c_str(x as u32) { Ok(c) => { let b = c.c_str(); format!("ok {}", g.rf(b.as_ptr(), b.len())) }, Err(e) => er(e) }) } },
